@@ -721,7 +721,16 @@ pub fn main() {
             file_list,
             names,
         } => {
-            let input_files = get_input_list(file_list, names);
+            let input_files = match file_list {
+                // One sample name per line (any further fields on the line are ignored)
+                Some(name_file) => std::fs::read_to_string(name_file)
+                    .expect("Unable to open file_list")
+                    .lines()
+                    .filter_map(|line| line.split_whitespace().next())
+                    .map(|name| (name.to_string(), String::new(), None))
+                    .collect(),
+                None => get_input_list(file_list, names),
+            };
             let input_names: Vec<&str> = input_files.iter().map(|t| &*t.0).collect();
             let output_file = output.clone().unwrap_or(skf_file.to_string());
             log::info!("Loading skf file");
